@@ -164,7 +164,7 @@ Proof.
       apply IH in Hp. rewrite itell_substream in Hp. rewrite Hp. rewrite itell_iabs. f_equal.
     + cbn [parse] in H. unfold kint in H. rewrite eval_const in H. cbn [bind] in H.
       destruct (iread_all s) as [d s1] eqn:Er.
-      cbn [xor_data Z.eqb bind] in H.
+      cbn [xor_data Z.eqb Z.leb Z.ltb Z.compare andb negb bind] in H.
       destruct (parse (wrap ls CTell) cx p (substream d (iabs s))) as [[v1 si]|] eqn:Ep; [|discriminate].
       cbn [bind] in H. injection H as <- <-.
       apply IH in Ep. rewrite itell_substream in Ep. rewrite Ep, itell_iabs. f_equal.
@@ -206,7 +206,7 @@ Theorem pointer_restores_position : forall off c cx p s v s',
 Proof.
   intros off c cx p s v s' H. cbn [parse] in H.
   destruct (eval_int cx off) as [o|]; [|discriminate]. cbn [bind] in H.
-  destruct (iseek s o _ p) as [[r1 s1]|]; [|discriminate]. cbn [bind] in H.
+  destruct (iseek_user s o _ p) as [[r1 s1]|]; [|discriminate]. cbn [bind] in H.
   destruct (parse c cx p s1) as [[v1 s2]|]; [|discriminate]. cbn [bind] in H.
   destruct (iseek s2 (itell s) 0 p) as [[r s3]|] eqn:Es; [|discriminate]. cbn [bind] in H.
   injection H as <- <-. apply iseek_abs_tell in Es. tauto.
@@ -217,7 +217,7 @@ Theorem pointer_build_restores_position : forall off c obj cx p o v o',
 Proof.
   intros off c obj cx p o v o' H. cbn [build] in H.
   destruct (eval_int cx off) as [a|]; [|discriminate]. cbn [bind] in H.
-  destruct (oseek o a _ p) as [[r1 o1]|]; [|discriminate]. cbn [bind] in H.
+  destruct (oseek_user o a _ p) as [[r1 o1]|]; [|discriminate]. cbn [bind] in H.
   destruct (build c obj cx p o1) as [[v1 o2]|]; [|discriminate]. cbn [bind] in H.
   destruct (oseek o2 (otell o) 0 p) as [[r o3]|] eqn:Es; [|discriminate]. cbn [bind] in H.
   injection H as <- <-.
